@@ -535,7 +535,7 @@ theorem openDB_eq (s : St) (dir : String) (cfg : Cfg) :
       match s.db with
       | some _ => (s, .err "already-open")
       | none =>
-        if cfg.fileSize = 0 then (s, .err "options") else
+        if cfg.fileSize = 0 ∨ cfg.bps > 16777216 ∨ (cfg.sync = 2 ∧ cfg.bps = 0) then (s, .err "options") else
         match openCore s.world dir with
         | .inl (w, e) => ({ s with world := w }, .err e)
         | .inr (w, d, r, data) =>
@@ -551,9 +551,9 @@ theorem openDB_eq (s : St) (dir : String) (cfg : Cfg) :
   | some _ => rfl
   | none =>
     simp only []
-    by_cases h0 : cfg.fileSize = 0
-    · simp only [h0, if_true]
-    · simp only [h0, if_false]
+    by_cases h0 : cfg.fileSize = 0 ∨ cfg.bps > 16777216 ∨ (cfg.sync = 2 ∧ cfg.bps = 0)
+    · simp only [if_pos h0]
+    · simp only [if_neg h0]
       generalize (if (s.world.get dir).isNone = true then s.world.set dir DirSt.empty else s.world) = w1
       by_cases hl : ((w1.get dir).getD DirSt.empty).locked = true
       · simp only [hl, if_true]
@@ -585,7 +585,10 @@ theorem openDB_retag (t : Tag) (s : St) (dir : String) (cfg : Cfg) :
   | none =>
     rw [openDB_eq, openDB_eq]
     simp only [retag, Option.map_none, retagCfg_fileSize]
-    by_cases h0 : cfg.fileSize = 0
+    have hb : (retagCfg t cfg).bps = cfg.bps := rfl
+    have hs : (retagCfg t cfg).sync = cfg.sync := rfl
+    rw [hb, hs]
+    by_cases h0 : cfg.fileSize = 0 ∨ cfg.bps > 16777216 ∨ (cfg.sync = 2 ∧ cfg.bps = 0)
     · simp only [h0, if_true]; rfl
     · simp only [h0, if_false]
       cases openCore w dir with
@@ -1678,7 +1681,7 @@ def freshDB (dir : String) (cfg : Cfg) : DB :=
 def freshSt (dir : String) (cfg : Cfg) : St :=
   { world := [(dir, ⟨[(0, ⟨ByteArray.empty, 0⟩)], none, none, true⟩)], db := some (freshDB dir cfg) }
 
-theorem openDB_fresh_eq (dir : String) (cfg : Cfg) (h : cfg.fileSize > 0) :
+theorem openDB_fresh_eq (dir : String) (cfg : Cfg) (h : cfg.Valid) :
     openDB St.init dir cfg = (freshSt dir cfg, .ok) := openDB_fresh dir cfg h
 
 theorem dirOf_fresh (dir : String) (cfg : Cfg) :
@@ -2881,7 +2884,7 @@ theorem SizeOK_bcommit {L : Nat} {s : St} (h : SizeOK L s) : SizeOK L (bcommit s
     exact H.sizeOK
 
 /-- the freshly opened empty database -/
-theorem SizeOK_fresh (dir : String) (cfg : Cfg) (h : cfg.fileSize > 0) :
+theorem SizeOK_fresh (dir : String) (cfg : Cfg) (h : cfg.Valid) :
     SizeOK cfg.fileSize (openDB St.init dir cfg).1 := by
   rw [openDB_fresh dir cfg h]
   refine ⟨_, [(0, [])], rfl, (Inv_fresh dir cfg).files, ?_, Nat.le_refl _, fun b hb => by simp at hb⟩
